@@ -44,6 +44,21 @@ LEAF = ("p", "q-r", "q_r")
 SER_ALPHA = ("a", "?", ">", "~", "/", ":", " ", "é", "=", "-", "_", "{", "0")
 
 
+class _InterruptingMapping(dict):
+    """A mapping whose iteration is cut short by a BaseException after `after` items
+    (stands for an interrupt arriving while config.set walks its argument)."""
+
+    def __init__(self, items, after, exc_type):
+        super().__init__(items)
+        self._items, self._after, self._exc = list(items), after, exc_type
+
+    def items(self):
+        for j, kv in enumerate(self._items):
+            if j == self._after:
+                raise self._exc("interrupt inside config.set")
+            yield kv
+
+
 def tier_cfg(tier):
     return {"max_ops": 14 if tier == "quick" else 30}
 
@@ -215,7 +230,35 @@ def run_one(tape, cfg):
                 break
             with tape.span("op"):
                 op = tape.weighted([(6, "enter"), (4, "exit"), (3, "get"), (1, "update"),
-                                    (1, "merge"), (1, "env"), (1, "serialize")], "op")
+                                    (1, "merge"), (1, "env"), (1, "serialize"), (1, "set_interrupted")], "op")
+                if op == "set_interrupted":
+                    # fault: a KeyboardInterrupt / SystemExit arrives inside the set() call after some
+                    # keys were assigned (raised by the mapping the call iterates over); the call
+                    # raises, so the configuration must be what it was before
+                    n = 2 + tape.draw(2, "nkeys")
+                    items = [(gen_key(tape), gen_value(tape)) for _ in range(n)]
+                    after = 1 + tape.draw(n - 1, "after")
+                    exc_type = (KeyboardInterrupt, SystemExit, GeneratorExit)[tape.draw(3, "bexc")]
+                    before = copy.deepcopy(verif_view(conf))
+                    hist.append(["set_interrupted", [[k, v] for k, v in items], after, exc_type.__name__])
+                    out.probe("set_interrupted_by_baseexception")
+                    raised = None
+                    try:
+                        dc.set(_InterruptingMapping(items, after, exc_type), **kw)
+                    except BaseException as e:  # noqa: BLE001
+                        raised = e
+                    if not isinstance(raised, exc_type):
+                        # the call may fail earlier for its own reasons (a path through a scalar): fine,
+                        # it raised all the same
+                        if raised is None:
+                            out.violate("interrupt_swallowed", f"set() swallowed {exc_type.__name__} "
+                                                               f"(history {hist})")
+                            continue
+                    if verif_view(conf) != before:
+                        out.violate("failed_set_changed_config",
+                                    f"set() aborted by {type(raised).__name__} left config={verif_view(conf)}, "
+                                    f"before the call {before} (history {hist})", where="interrupted")
+                    continue
                 if op == "enter":
                     if len(stack) >= 5:
                         continue
